@@ -178,15 +178,31 @@ class Program:
             body = f.body
             rets = [bi for bi in a.reach if body.blocks[bi]["term"]["k"] == "return"]
             sw = [bi for bi in a.reach if body.blocks[bi]["term"]["k"] in ("switch", "assert")]
-            if len(rets) != 1 or sw or body.local_ty(0) == "()":
+            if len(rets) != 1 or body.local_ty(0) == "()" or len(a.reach) > 24:
                 continue
             if any(st["k"] == "assign" and st["place"]["p"] and st["place"]["p"][0] == "*" for bi in a.reach for st in body.blocks[bi]["stmts"]):
                 continue
             if self.direct_mod.get(k):
                 continue
-            e = a.expr_local(0, (rets[0], "term"))
             from .an import walk
-            if any(x[0] in ("local", "phi", "opaque") for x in walk(e)):
+            if not sw:
+                e = a.expr_local(0, (rets[0], "term"))
+            else:
+                # a small selector (`match self.x { Some(s) => s.index, None => self.offset }`): the result is
+                # one of the alternatives, stated as a phi (path conditions are not carried, as for any phi)
+                from .pg import PG
+                try:
+                    rs = PG(self, f).returns(limit=16)
+                except OverflowError:
+                    continue
+                vals = []
+                for _, v, _ in rs:
+                    if v not in vals:
+                        vals.append(v)
+                if not (2 <= len(vals) <= 4):
+                    continue
+                e = ("phi", -1, f.name, tuple(vals))
+            if any(x[0] in ("local", "opaque") or (x[0] == "phi" and x[1] != -1) for x in walk(e)):
                 continue
             w[strip_generics(k)] = e
         self._wrappers = w
